@@ -289,11 +289,18 @@ def run_testbench(case, ob, site, concrete_inputs=None):
     v = Vars()
     holder = {}
     from .. import spec
-    assume = [z3.Not(d) for d in spec.run(block, K, v, reg_init=regs0, mem_init='default').double_write]
+    # the no-double-write precondition is evaluated for the ACTUAL initial contents (enables may depend on memory reads)
+    spec_mems = {mem.name: SymMem.from_dict(mems0.get(mem.name, {}), 0, mem.addrwidth, mem.bitwidth)
+                 for mem in simdrv.mems_of(block).values() if not isinstance(mem, pyrtl.RomBlock)}
+    assume = [z3.Not(d) for d in spec.run(block, K, v, reg_init=regs0, mem_init=spec_mems).double_write]
 
     def after(sim, t):
         return sim.tracer           # per explored path: that path's own tracer object
     if concrete_inputs is not None:
+        subs = [(v.inp(w.name, t, w.bitwidth), z3.BitVecVal(concrete_inputs(w, t), w.bitwidth))
+                for w in block.wirevector_subset(pyrtl.Input) for t in range(K)]
+        if assume and not z3.is_true(z3.simplify(z3.substitute(z3.And(*assume), *subs))):
+            return ob.fact('skipped-inputs-outside-the-precondition', True)     # two enabled writes to one address: undefined
         assume = []
         tracer, r0 = concrete_tb_run(block, kind, K, regs0, mems0, concrete_inputs)
         r0.extra = [tracer]
